@@ -67,8 +67,7 @@ Definition run (fn : string) (args : list string) : string :=
     showb (nsec3_match sha1 r name) +++ ","%string +++ showb (nsec3_cover sha1 r name)
   else if String.eqb fn "chain" then
     let o := unhex (a 0%nat) in let n := unhex (a 1%nat) in let x := unhex (a 2%nat) in
-    showb (match_chain o x) +++ ","%string +++ showb (cover_chain o n x) +++ ","%string +++
-    showb (cover_chain_fixed o n x)
+    showb (match_chain o x) +++ ","%string +++ showb (cover_chain o n x)
   else if String.eqb fn "b32hex" then hex (b32hex (unhex (a 0%nat)))
   else if String.eqb fn "validity" then
     showb (validity_period (undec (a 0%nat)) (undec (a 1%nat)) (undecZ (a 2%nat)))
